@@ -132,7 +132,7 @@ CHECKS["C07"] = {
 CHECKS["C08"] = {
     "engine": "sched (loom)", "category": "model_checking", "design_ref": "DESIGN.md 3/C08",
     "technique": "stateless model checking of the real code under a controlled scheduler (loom): exhaustive order assignments plus all interleavings of join/kernel-entry scheduling points under a preemption bound, Rust and C",
-    "text": "Hasher::update_with_join runs with a scripted Join (hook H3) and blake3_hasher_update_tbb with a scripted parallel_invoke (the real c/blake3_tbb.cpp compiled against a stand-in header), on inputs whose split tree has 1..7 internal nodes at every SIMD level, from empty and non-empty hashers. (1) Every assignment of left-first/right-first to the internal nodes is executed. (2) For every choice of up to two (quick) / three (thorough) nodes run concurrently on loom threads, every interleaving of the scheduling points - join entry and exit, every kernel entry (hook H2; blake3.c's kernel calls are redirected to harness functions) - is executed under preemption bound 2 / 3 (unbounded for the smallest scenarios). After every execution the complete hasher state and 64 output bytes must equal single-threaded update, which is tied to the spec. Supporting, labelled as sampling: real rayon pools of 1..16 threads through update_rayon / update_mmap_rayon, and a free-running ThreadSanitizer build of the C parallel path.",
+    "text": "Hasher::update_with_join runs with a scripted Join (hook H3) and blake3_hasher_update_tbb with a scripted parallel_invoke (the real c/blake3_tbb.cpp compiled against a stand-in header), on inputs whose split tree has 1..7 internal nodes at every SIMD level, from empty and non-empty hashers. (1) Every assignment of left-first/right-first to the internal nodes is executed. (2) For every choice of up to two (quick) / three (thorough) nodes run concurrently on loom threads, every interleaving of the scheduling points - join entry and exit, every kernel entry (hook H2; blake3.c's kernel calls are redirected to harness functions) - is executed under preemption bound 2 / 3 (unbounded for the smallest scenarios). After every execution the complete hasher state and 64 output bytes must equal single-threaded update, which is tied to the spec. update_rayon itself (the real RayonJoin, pools of 1, 2 and 4 threads) is additionally executed as a transition from every state of the C02 Hasher exploration and must leave exactly the state update leaves. Supporting, labelled as sampling: real rayon pools of 1..16 threads on large inputs through update_rayon / update_mmap_rayon, and a free-running ThreadSanitizer build of the C parallel path.",
     "note": "Interleavings inside one kernel call and weak-memory effects on plain accesses are outside the scheduler (race-detector passes only). oneTBB itself is not installed; its parallel_invoke is a stand-in. loom MAX_THREADS=5.",
 }
 CHECKS["C18"] = {
